@@ -20,7 +20,7 @@ DECIDES = ("Decided: (a) the frame condition - every effect in the call-graph cl
            "very combination being applied, on a fresh copy of the graph, whose helpers only rebind keys; (d) visitors "
            "return their argument or the inherited result (so update_children re-installs the same objects); (e) what "
            "is omittable: exactly declarations with an inferred_type (variables, functions) and constructor/call "
-           "instantiation nodes.")
+           "instantiation nodes. Also: the analysis' lookup scope (_namespace) is restored on every path after every hand-written change; the recursion test that protects a return-type node is by name only.")
 NOT_DECIDED = ("that the feasibility check is right about what a compiler infers (a property of the type-graph "
                "construction over all programs).")
 
